@@ -2,10 +2,22 @@
 
 package simrt
 
-import "runtime"
+import (
+	"runtime"
+	"unsafe"
+)
 
 // RaceBuild reports whether the binary was built with -race.
 const RaceBuild = true
 
 func raceDisable() { runtime.RaceDisable() }
 func raceEnable()  { runtime.RaceEnable() }
+
+// raceReleaseToRoot publishes everything the calling task has done so far to
+// the goroutine that called Run (and to nobody else: tasks never acquire
+// from this address, so no happens-before edge between tasks is created).
+// Without it the race detector, which cannot see the scheduler's hand-offs,
+// would report the harness's own post-run reads of what the main task wrote.
+func raceReleaseToRoot(s *Sim) { runtime.RaceReleaseMerge(unsafe.Pointer(&s.rootSync)) }
+
+func raceAcquireAtRoot(s *Sim) { runtime.RaceAcquire(unsafe.Pointer(&s.rootSync)) }
